@@ -337,6 +337,48 @@ def regeneration_history(ctx):
         codec.HISTORY = None
 
 
+REGEN_OLD = {
+    "rq/Leafq.1.0.dsdl": "uint8 K = 1\nuint8 a\n@sealed\n",
+    "rq/Midq.1.0.dsdl": "rq.Leafq.1.0 leaf\nuint8 t\n@extent 100 * 8\n",
+    "rq/Holderq.1.0.dsdl": "uint8 h\nrq.Midq.1.0 mid\nrq.Leafq.1.0[2] leaves\nrq.Leafq.1.0[<=3] more\n@sealed\n",
+    "rq/50.HSvcq.1.0.dsdl": "rq.Leafq.1.0 rq1\n@sealed\n---\nrq.Holderq.1.0 rs1\n@sealed\n",
+    "rq/Aloneq.1.0.dsdl": "uint16 x\n@sealed\n",
+}
+# only the leaf (and the extent of the middle type) are edited: everything that nests them has new sizes although its own file is untouched
+REGEN_NEW = dict(REGEN_OLD, **{
+    "rq/Leafq.1.0.dsdl": "uint8 K = 2\nuint8 a\nuint32[<=11] grown\n@sealed\n",
+    "rq/Midq.1.0.dsdl": "rq.Leafq.1.0 leaf\nuint8 t\n@extent 200 * 8\n",
+})
+
+
+def regeneration_over_earlier_output(ctx):
+    """The output directory already holds what an earlier run made of an older version of the namespace; since then a nested definition
+    was edited (its file is newer than that output, the files of the types that nest it are older).  What the second run leaves must carry
+    the constants of the definitions as they are now."""
+    import time
+    from vlib import codec, dsdlgen
+    d = ctx.sub("regen")
+    past = time.time() - 5000
+    for name, files in (("old", REGEN_OLD), ("new", REGEN_NEW)):
+        for rel, text in files.items():
+            os.makedirs(os.path.dirname(os.path.join(d, name, rel)), exist_ok=True)
+            with open(os.path.join(d, name, rel), "w") as f:
+                f.write(text)
+            os.utime(os.path.join(d, name, rel), (past, past))
+
+    def edited_now():
+        for rel in REGEN_NEW:
+            if REGEN_NEW[rel] != REGEN_OLD[rel]:
+                os.utime(os.path.join(d, "new", rel), None)
+    roots = ["rq"]
+    codec.EARLIER = (os.path.join(d, "old"), roots, edited_now)
+    try:
+        run_set(ctx, ("regen_same_outdir", os.path.join(d, "new"), roots, dsdlgen.read_all(os.path.join(d, "new"), roots)))
+        ctx.count("regeneration_over_earlier_output_sets")
+    finally:
+        codec.EARLIER = None
+
+
 def run(ctx):
     ctx.rule = ("case = exported constant or (type, buffer size) serialization on a code base; distinct = distinct (language, constant kind, value) checks that agreed")
     ok, why = build.sanitizer_canary(ctx.sub("canary"))
@@ -352,6 +394,7 @@ def run(ctx):
             item = (idx, dsdl_dir, roots, dsdlgen.read_all(dsdl_dir, roots))
         run_set(ctx, item)
     regeneration_history(ctx)
+    regeneration_over_earlier_output(ctx)
     ctx.sample({"type": "…OnlyConstsq.1.0", "constant": "float64 THIRD = 1/3", "probe": "printf of the raw bits of (double)(X)", "oracle": "Fraction(1,3) rounded to binary64, +-1 ULP"})
     ctx.require("constants_ok", 500)
     ctx.require("size_ok", 100)
